@@ -276,6 +276,7 @@ func (ex *Exec) registerIntrinsics() {
 		if x, ok := a[1].(Iface); ok && x.T == nil {
 			return nil
 		}
+		ex.evPoolPut(ex.pools[p.S], a[1], "sync.Pool")
 		ex.pools[p.S] = append(ex.pools[p.S], a[1])
 		return nil
 	}
